@@ -329,6 +329,21 @@ def job_c06(job, progress):
     return res
 
 
+def confirm_hangs(jobs, results):
+    """a history() call that gave no answer is run once more, alone, with three times the time limit; only if it is silent
+    again is it reported.  (The other selections of that file were lost with the worker: they are run again without it.)"""
+    out = list(results)
+    for k, (job, r) in enumerate(zip(jobs, results)):
+        if isinstance(r, L.Timeout) and (r.info or {}).get('selection'):
+            info = r.info
+            sel = dict(items=info['selection'], form=info.get('form', 'list'), short=info.get('short', True), start=info.get('start', 0))
+            r2 = L.run_jobs('job_c06', [dict(job, selections=[sel])], timeout=3 * HISTORY_TIMEOUT, nworkers=1, module='props.c06')[0]
+            if not isinstance(r2, L.Timeout):
+                # it was slowness, not a hang: run the whole job again with a generous limit
+                out[k] = L.run_jobs('job_c06', [job], timeout=3 * HISTORY_TIMEOUT, nworkers=1, module='props.c06')[0]
+    return out
+
+
 def build_jobs(ctx, rng, n_extra, all_subsets, with_variants):
     jobs = []
     for rel, family in L.corpus():
@@ -498,6 +513,7 @@ def run(ctx):
     rng = ctx.rng('c06')
     jobs = build_jobs(ctx, rng, ctx.n(6, 250), True, ctx.n(0.25, 1.0))
     results = L.run_jobs('job_c06', jobs, timeout=HISTORY_TIMEOUT, module='props.c06')
+    results = confirm_hangs(jobs, results)
     collect(res, results, jobs)
     n = res.stats.get('history-calls', 0)
     res.facet('oracle_history')['cases'] = n
